@@ -1,9 +1,188 @@
-(* C03 - source recovery returns the lambda that was actually passed (placeholder while the
-   pipeline is brought up). *)
-From Coq Require Import List String.
-From FA.Model Require Import LambdaFinder LambdaFinderSpec.
-From FA.Proofs Require Import LambdaFinderProofs.
+(* C03 - Source recovery returns the lambda that was actually passed.
+   Only statements here; proofs are in Proofs/LambdaFinderProofs.v, the concrete token streams in
+   Proofs/LambdaFinderWitness.v.
 
-Theorem def_branch_never_a_lambda : forall d s k, def_outcome d <> Found s k.
-Proof. exact def_outcome_not_found. Qed.
-Print Assumptions def_branch_never_a_lambda.
+   [find P streams L is_lam dsrc caller args] (Model/LambdaFinder.v) is the token-level model of
+   util_ast._parse_source_for_lambda *with the fixes F15 and F15b*; [find_pinned] is the selection of
+   the pinned commit.  Inputs that are CPython's (tied to the code by correspondence only, never
+   proved): the token streams ([streams] = what tokenize yields from row L, L-1, ... with absolute
+   rows), L (= inspect.findsource), [P] (= untokenize + ast.parse + first Lambda of an extent's
+   tokens; every theorem is quantified over all P), [dsrc] (statement kinds of a def body).
+   Outcomes: [Found s k] = the lambda whose `lambda` token is token k of stream s; [FoundDef];
+   [Err _] = ValueError; [Crash _] = another exception; [NeedStream] = input too short. *)
+From Coq Require Import List String ZArith Bool Arith.
+From FA.Model Require Import LambdaFinder LambdaFinderSpec.
+From FA.Proofs Require Import LambdaFinderProofs LambdaFinderLayouts LambdaFinderWitness.
+Import ListNotations.
+Open Scope string_scope.
+
+(* SAFETY.  Whatever is returned is the lambda that was passed.  Hypotheses (boolean, evaluated by
+   the harness on every generated layout): in the stream the answer refers to, tokenize's rows are
+   monotone ([rows_okb]); token k0 is a `lambda` on row L whose nearest preceding NAME (no `,`/`)`
+   in between) is the caller and whose extent CPython parses to the parameters [args]
+   ([lambda_atb]); no earlier `lambda` token's argument extent reaches k0 ([not_nestedb]: the passed
+   lambda is not written inside another lambda of the scanned region - func_adl never executes
+   lambda bodies, so a nested lambda is never the callable).  Bracket balance is NOT needed. *)
+Theorem finder_never_picks_neighbour :
+  forall P streams L dsrc caller args s k toks k0,
+    find P streams L true dsrc (Some caller) args = Found s k ->
+    nth_error streams s = Some toks ->
+    rows_okb toks = true ->
+    lambda_atb P toks k0 L caller args = true ->
+    not_nestedb toks k0 = true ->
+    k = k0.
+Proof. exact never_picks_neighbour. Qed.
+Print Assumptions finder_never_picks_neighbour.
+
+(* ... and a lambda is never answered by a `def`, a `def` never by a lambda *)
+Theorem lambda_never_def :
+  forall P streams L dsrc caller args, find P streams L true dsrc caller args <> FoundDef.
+Proof. exact LambdaFinderProofs.lambda_never_def. Qed.
+Print Assumptions lambda_never_def.
+
+Theorem def_never_lambda :
+  forall P streams L dsrc caller args s k, find P streams L false dsrc caller args <> Found s k.
+Proof. exact LambdaFinderProofs.def_never_lambda. Qed.
+Print Assumptions def_never_lambda.
+
+(* two lambdas of the scanned region with the caller's name and the callable's parameter names on
+   the callable's row: nothing is returned (the code raises) *)
+Theorem finder_raises_when_ambiguous :
+  forall P streams L dsrc caller args toks k1 k2,
+    k1 <> k2 ->
+    rows_okb toks = true ->
+    lambda_atb P toks k1 L caller args = true -> not_nestedb toks k1 = true ->
+    lambda_atb P toks k2 L caller args = true -> not_nestedb toks k2 = true ->
+    forall s k, nth_error streams s = Some toks ->
+                find P streams L true dsrc (Some caller) args <> Found s k.
+Proof. exact raises_when_ambiguous. Qed.
+Print Assumptions finder_raises_when_ambiguous.
+
+(* TOTALITY.  The selection logic itself never crashes: if the tokenizer does not raise in any
+   stream handed over, CPython parses every extent to a lambda, and the def source is available,
+   the outcome is Found / FoundDef / Err (ValueError) / NeedStream.  (Whether CPython parses an
+   extent is where bracket balance of the source enters; it is part of [P].) *)
+Theorem finder_total :
+  forall P streams L is_lam dsrc caller args,
+    (forall x, exists a, P x = PArgs a) ->
+    forallb no_err_toks streams = true ->
+    (forall e, dsrc <> DSExc e) ->
+    forall c, find P streams L is_lam dsrc caller args <> Crash c.
+Proof. exact LambdaFinderProofs.finder_total. Qed.
+Print Assumptions finder_total.
+
+(* LIVENESS (partial).  Full statement wanted: every layout documented as supported is recovered
+   without error, [supported_layout toks k0 -> find ... = Found k0].  Proved for the following
+   inductive family (Model/LambdaFinderSpec.v: segment, segs_ok, end_ok, supported_layoutb):
+   the stream the scan settles on (after [earlier] streams that start with a bare `lambda` and make
+   it back up) is a sequence of call segments
+        glue  NAME(f)  gap  `lambda`  body  stop        followed by [tail]
+   glue = anything without a `lambda` NAME / NEWLINE token (for the first segment: anything without
+   the keyword), gap = no NAME, no `,` `)`, no NEWLINE (e.g. `(`, NL, comments), body = the argument
+   (any tokens - strings, comments, nested lambdas, brackets - with no `,`/`)` at relative depth 0,
+   brackets balanced at its end), stop = `,` or `)`; only the last body may contain a line break,
+   otherwise the rest of the logical line has no further `lambda`; CPython parses every segment's
+   extent; exactly the passed segment g0 has (row L, caller, args).
+   This covers: one lambda per call (black-style one call per line, wrapped argument on its own
+   line), several calls on a line told apart by method name or by parameter names, multi-line
+   bodies, comments/strings containing brackets or the word lambda, inline-then-wrapped chains.
+   MISSING from the full statement: layouts where an *earlier* segment's argument spans lines
+   (the chain continuing on the last line of a multi-line argument is then found through a later
+   start row, i.e. a different stream decomposition, not described by one segment list), backslash
+   continuations across segments, lambdas that are not the first thing after `NAME(`, and the def
+   branch; and that the harness's "documented" labels imply [supported_layoutb] is checked by
+   evaluation on every generated case, not proved. *)
+Theorem finder_supported_layouts_partial :
+  forall P L dsrc caller args earlier gs1 g0 gs2 tail,
+    forallb (backs_up P) earlier = true ->
+    supported_layoutb P L caller args gs1 g0 gs2 tail = true ->
+    find P (earlier ++ [layout_toks (gs1 ++ g0 :: gs2) tail]) L true dsrc (Some caller) args
+    = Found (List.length earlier) (seg_start g0 (List.length (flat_map seg_toks gs1))).
+Proof. exact supported_layouts_b. Qed.
+Print Assumptions finder_supported_layouts_partial.
+
+(* THE PINNED COMMIT IS REFUTED (finding F15): with the selection that loses the line constraint
+   the safety statement fails on the token stream of
+       ds.Select(lambda j: j.jets.Select(
+           lambda j: j.pt)).Select(lambda j: j + 1)
+   for the third lambda (token 25 of the stream read from row 1, row 2): token 4 is returned. *)
+Theorem finder_never_picks_neighbour_pinned_refuted :
+  exists P streams L dsrc caller args s k toks k0,
+    find_pinned P streams L true dsrc (Some caller) args = Found s k /\
+    nth_error streams s = Some toks /\ rows_okb toks = true /\
+    lambda_atb P toks k0 L caller args = true /\ not_nestedb toks k0 = true /\ k <> k0.
+Proof. exact pinned_refuted. Qed.
+Print Assumptions finder_never_picks_neighbour_pinned_refuted.
+
+(* the same witness with only F15b applied: it is the missing row constraint that matters *)
+Theorem finder_never_picks_neighbour_norow_refuted :
+  exists P streams L dsrc caller args s k toks k0,
+    find_norow P streams L true dsrc (Some caller) args = Found s k /\
+    nth_error streams s = Some toks /\ rows_okb toks = true /\
+    lambda_atb P toks k0 L caller args = true /\ not_nestedb toks k0 = true /\ k <> k0.
+Proof. exact norow_refuted. Qed.
+Print Assumptions finder_never_picks_neighbour_norow_refuted.
+
+(* finding F15b: searching `def` and `lambda` together answers the lambda inside
+       def get(d): return d.Select(lambda e: e.pt)
+   by the enclosing def *)
+Theorem lambda_never_def_pinned_refuted :
+  exists P streams L dsrc caller args, find_pinned P streams L true dsrc caller args = FoundDef.
+Proof. exact defkw_refuted. Qed.
+Print Assumptions lambda_never_def_pinned_refuted.
+
+(* ---- non-vacuity: documented layouts meet the hypotheses and are found ---- *)
+(* black-style chain, the .Where line (with a trailing comment holding `lambda e: (`) *)
+Example black_chain_meets_hypotheses :
+  rows_okb black_s0 = true /\ lambda_atb P_names black_s0 4 3 "Where" ["e"] = true /\ not_nestedb black_s0 4 = true
+  /\ find P_names [black_s0] 3 true (DSBody []) (Some "Where") ["e"] = Found 0 4.
+Proof. vm_compute. repeat split. Qed.
+
+(* the wrapped second Select of `ds.Select(lambda e: e.y).Select(<newline> lambda e: e.x <newline>)`:
+   recovered after backing up one row (the pinned commit raises "multiple" here) *)
+Example wrapped_same_signature_recovered :
+  lambda_atb P_names wrap_s1 17 2 "Select" ["e"] = true /\ not_nestedb wrap_s1 17 = true
+  /\ find P_names [wrap_s0; wrap_s1] 2 true (DSBody []) (Some "Select") ["e"] = Found 1 17
+  /\ find_pinned P_names [wrap_s0; wrap_s1] 2 true (DSBody []) (Some "Select") ["e"] = Err EMultiple.
+Proof. vm_compute. repeat split. Qed.
+
+(* several calls on a line: told apart by the method name; equal names and parameters raise *)
+Example same_line_by_method_name :
+  find P_names [amb_s0] 1 true (DSBody []) (Some "Where") ["e"] = Found 0 16
+  /\ find P_names [amb_s0] 1 true (DSBody []) (Some "Select") ["e"] = Err EMultiple
+  /\ lambda_atb P_names amb_s0 6 1 "Select" ["e"] = true /\ not_nestedb amb_s0 6 = true
+  /\ lambda_atb P_names amb_s0 28 1 "Select" ["e"] = true /\ not_nestedb amb_s0 28 = true.
+Proof. vm_compute. repeat split. Qed.
+
+(* the fixed algorithm on the two finding witnesses: raises / finds the lambda *)
+Example fixed_on_witnesses :
+  find P_names [w15_s0; w15_s1] 2 true (DSBody []) (Some "Select") ["j"] = Err ENoLambda
+  /\ find P_names [w15b_s0] 1 true (DSBody [SReturn]) (Some "Select") ["e"] = Found 0 11.
+Proof. vm_compute. repeat split. Qed.
+
+(* a def is answered through the def branch; a def with two statements is refused *)
+Example def_branch :
+  find P_names [w15b_s0] 1 false (DSBody [SDoc; SReturn]) (Some "Select") ["d"] = FoundDef
+  /\ find P_names [w15b_s0] 1 false (DSBody [SOther; SReturn]) (Some "Select") ["d"] = Err EDefLines.
+Proof. vm_compute. repeat split. Qed.
+
+(* the three documented layouts above are instances of the segment family (and the index the
+   theorem predicts is the one computed) *)
+Example same_line_is_supported_layout :
+  layout_toks [amb_g1; amb_g2; amb_g3] amb_tail = amb_s0
+  /\ supported_layoutb P_names 1 "Where" ["e"] [amb_g1] amb_g2 [amb_g3] amb_tail = true
+  /\ seg_start amb_g2 (List.length (flat_map seg_toks [amb_g1])) = 16.
+Proof. vm_compute. repeat split. Qed.
+
+Example black_chain_is_supported_layout :
+  layout_toks [black_g1] black_tail = black_s0
+  /\ supported_layoutb P_names 3 "Where" ["e"] [] black_g1 [] black_tail = true
+  /\ seg_start black_g1 0 = 4.
+Proof. vm_compute. repeat split. Qed.
+
+Example wrapped_is_supported_layout :
+  layout_toks [wrap_g1; wrap_g2] wrap_tail = wrap_s1
+  /\ forallb (backs_up P_names) [wrap_s0] = true
+  /\ supported_layoutb P_names 2 "Select" ["e"] [wrap_g1] wrap_g2 [] wrap_tail = true
+  /\ seg_start wrap_g2 (List.length (flat_map seg_toks [wrap_g1])) = 17.
+Proof. vm_compute. repeat split. Qed.
